@@ -18,7 +18,7 @@ travel in an Unconnected Send or a Multiple Service Packet, and through the per-
 requests handed straight to the Logix object (parser -> request, the way logix_test does).
 
 Bounded exhaustive enumeration (scaled-down budgets, so every alignment of range end vs. budget boundary
-occurs) plus Hypothesis-drawn large cases (tag length up to 5000, the real 488-byte budget, full-range
+occurs) plus Hypothesis-drawn large cases (tag length up to 5000 and 32770 / 40000 / 65535 with start indices around 32768, the real 488-byte budget, full-range
 values).
 """
 from __future__ import annotations
@@ -40,7 +40,7 @@ RULE = ('read case = (element type, tag length L, start element s [explicit or i
         'budget, how the request travels: Unconnected Send / Multiple Service Packet with the budget in Logix.MAX_BYTES, or '
         'straight to the Logix object with the budget in max_size, tag contents); write case = (type, L, s, n, tiling of '
         '[0,n) into pieces, order of the pieces, wrapper, old and new contents).  Enumerated exhaustively for small L and '
-        'budgets 1..3*size+1, Hypothesis-drawn for L up to 5000 around the real 488-byte budget.  non-trivial = a read '
+        'budgets 1..3*size+1, Hypothesis-drawn for L up to 5000 (and L = 32770 / 40000 / 65535 with start indices around 32768) around the real 488-byte budget.  non-trivial = a read '
         'that needed >= 2 fragments (classes tell apart "last fragment shorter" and "n*size an exact multiple of the '
         'fragment size"), or a write of >= 2 pieces')
 ASSUMPTIONS = [
@@ -308,6 +308,8 @@ def pred_read(case, stats):
         classes.append('read:budget-default-488')
     if L > 700:
         classes.append('read:length>700')
+    if s >= 32768:
+        classes.append('read:start>=32768')
     if len(frags) >= 10:
         classes.append('read:fragments>=10')
     stats.case(case, nontrivial=multi, classes=classes)
@@ -386,6 +388,8 @@ def pred_write(case, stats):
         classes.append('write:element-implied')
     if L > 700:
         classes.append('write:length>700')
+    if s >= 32768:
+        classes.append('write:start>=32768')
     stats.case(case, nontrivial=len(pieces) >= 2, classes=classes)
     for sig, detail in bad:
         stats.fail('write', sig, case, observed=detail,
@@ -760,14 +764,19 @@ def fill_strategy(t):
 
 
 def length_strategy():
-    return st.one_of(st.integers(1, 40), st.integers(41, 700), st.integers(701, 5000), st.sampled_from([5000, 4999, 1000]))
+    # tags beyond 32768 elements (the harness bound is 65535): start indices in the upper half of the 16-bit element segment
+    return st.one_of(st.integers(1, 40), st.integers(41, 700), st.integers(701, 5000), st.sampled_from([5000, 4999, 1000]),
+                     st.sampled_from([32770, 40000, 65535]))
 
 
 @st.composite
 def range_strategy(draw, L, unit, nmax_cap):
     """(elem, s, n): in bounds; biased to ranges ending at the tag end and to counts next to a multiple of unit
     (= elements per fragment / per piece), never more than nmax_cap elements (cost bound)."""
-    s = draw(st.one_of(st.just(0), st.integers(0, L - 1), st.integers(max(0, L - 3), L - 1)))
+    starts = [st.just(0), st.integers(0, L - 1), st.integers(max(0, L - 3), L - 1)]
+    if L > 32768:
+        starts += [st.integers(32766, min(L - 1, 32770))] * 2
+    s = draw(st.one_of(*starts))
     nmax = min(L - s, nmax_cap)
     near = st.builds(lambda k, d: min(nmax, max(1, k * unit + d)), st.integers(1, max(1, nmax // unit)), st.integers(-1, 1))
     n = draw(st.one_of(st.just(nmax), st.integers(1, nmax), near, near))
